@@ -32,7 +32,8 @@ def def_for_trace(d):
     v = d["valid"]
     t["valid"] = [v[0], v[1], fstr(v[2])] if v[0] == 1 else (list(v) if v[0] == 2 else [0])
     t["orient"] = d.get("orient") or ""
-    return t
+    t["names"] = probe.par_names(d)
+    return {k: v for k, v in t.items() if v is not None}
 
 
 _models = {}
